@@ -1,9 +1,82 @@
 import Driver.Json
-open Lean Drv
+import Model.Trim
+open Lean Drv Ens Ens.Trim
 
 namespace Drv.C11
 
-def handle (op : String) (_req : Json) : Except String Json :=
-  throw s!"bad-op C11.{op}"
+def errStr : Err → String
+  | .valueError => "value-error"
+  | .assertion => "assertion"
+  | .stopIteration => "stop-iteration"
+
+def pairsJson (l : List (Nat × Nat)) : Json := listJson (fun p => Json.arr #[natJson p.1, natJson p.2]) l
+
+def boolMatJson (n : Nat) (m : BMat) : Json :=
+  listJson (listJson fun b => Json.bool b) (tabulate n fun i => tabulate n fun j => bget m i j)
+
+/-- square matrix of naturals as an index function (outside the shape 0; never read by the model) -/
+def getCounts (req : Json) : Except String (Nat × (Nat → Nat → Nat)) := do
+  let rows ← getList (getList getNat) (← field req "counts")
+  let n := rows.length
+  if rows.any (fun r => r.length != n) then throw "counts not square"
+  let a : Array (Array Nat) := (rows.map List.toArray).toArray
+  pure (n, fun i j => (a.getD i #[]).getD j 0)
+
+def mappingJson (m : TrimMapping) : List (String × Json) :=
+  [("to_original", pairsJson m.toOriginal), ("to_mapped", pairsJson m.toMapped),
+   ("csv", listJson (listJson Json.str) m.write),
+   ("reread_equal", Json.bool (match TrimMapping.read m.write with
+      | .ok m' => decide (m' = m)
+      | .error _ => false))]
+
+def handle (op : String) (req : Json) : Except String Json := do
+  match op with
+  | "scc" =>
+    -- closure table, SCC of every state, the heaviest SCCs (label free part of the model)
+    let (n, C) ← getCounts req
+    let thr ← getInt (← field req "thr")
+    let m := closure n (edge C thr)
+    pure (okJson (Json.mkObj [
+      ("reach", boolMatJson n m),
+      ("scc", listJson (listJson natJson) ((List.range n).map (sccOfM m n))),
+      ("rowsum", listJson natJson ((List.range n).map (rowSum C n))),
+      ("heaviest", listJson (listJson natJson) (heaviestM C n m).eraseDups)]))
+  | "trim" =>
+    let (n, C) ← getCounts req
+    let thr ← getInt (← field req "thr")
+    let labs ← getList getNat (← field req "labels")
+    let nsub ← getNat (← field req "nsub")
+    let renumber ← getBool (← field req "renumber")
+    if labs.length != n then throw "labels length"
+    let la := labs.toArray
+    let labels : Nat → Nat := fun i => la.getD i 0
+    let m := closure n (edge C thr)
+    let valid := validLabeling m n labels nsub
+    match trimDisconnected C n labels nsub renumber with
+    | .error e => pure (Json.mkObj [("error", Json.str (errStr e)), ("valid", Json.bool valid)])
+    | .ok r =>
+      pure (okJson (Json.mkObj ([
+        ("valid", Json.bool valid),
+        ("keep", listJson natJson r.keep),
+        ("shape", natJson r.shape),
+        ("matrix", listJson (listJson natJson) r.toLists),
+        ("in_heaviest", Json.bool ((heaviestM C n m).contains r.keep)),
+        ("heaviest", listJson (listJson natJson) (heaviestM C n m).eraseDups)]
+        ++ mappingJson r.mapping)))
+  | "mapping" =>
+    -- TrimMapping(transformations) for arbitrary (original, mapped) pairs
+    let ts ← getList (fun j => do
+      let l ← getList getNat j
+      match l with
+      | [a, b] => pure (a, b)
+      | _ => throw "pair") (← field req "pairs")
+    pure (okJson (Json.mkObj (mappingJson (TrimMapping.ofTransformations ts))))
+  | "csv_read" =>
+    let rows ← getList (getList getStr) (← field req "rows")
+    match TrimMapping.read rows with
+    | .error e => pure (errJson (errStr e))
+    | .ok m => pure (okJson (Json.mkObj [("to_original", pairsJson m.toOriginal),
+                                         ("to_mapped", pairsJson m.toMapped)]))
+  | _ => throw s!"bad-op C11.{op}"
 
 end Drv.C11
